@@ -106,6 +106,7 @@ def execute(ctx, case: dict) -> None:
     min_level = logging.DEBUG if cls_name == "AddrGroup" else logging.WARNING
     acl_type = case.get("type", "extended")
     ptr = 0
+    used = set()  # every record vouches for one line only: a repeated invalid line needs a record per occurrence
     for text_ln, klass, kind, token in lines:
         norm = " ".join(text_ln.split())
         if not norm:
@@ -124,7 +125,12 @@ def execute(ctx, case: dict) -> None:
                 ptr += 1
             ctx.count("lines_ignorable")
         else:
-            reported = any(level >= min_level and norm in " ".join(msg.split()) for level, msg in records)
+            reported = False
+            for ridx, (level, msg) in enumerate(records):
+                if ridx not in used and level >= min_level and norm in " ".join(msg.split()):
+                    used.add(ridx)
+                    reported = True
+                    break
             if reported:
                 ctx.count("lines_reported")
                 if ptr < len(items) and token and token in items[ptr].line.split():
@@ -202,6 +208,8 @@ def gen_case(rng):
                 if acl_type == "extended" and rng.random() < 0.04:
                     tok = _tok()
                     lines.append([f"permit ip 10.0.0.0 85.255.85.85 any {tok}", "invalid", "overlimit", tok])
+                elif rng.random() < 0.2 and any(ln[1] == "invalid" and ln[2] != "overlimit" for ln in lines):
+                    lines.append(list(rng.choice([ln for ln in lines if ln[1] == "invalid" and ln[2] != "overlimit"])))  # exact repeat
                 else:
                     text, kind, tok = _invalid_acl_line(rng, platform)
                     lines.append([text, "invalid", kind, tok])
